@@ -3,7 +3,9 @@
 EXTENDS FieldsSet, Json, IOUtils
 
 Fd(n, k, das, req, owner) == [name |-> n, kind |-> k, das |-> das, req |-> req, owner |-> owner]
-Sh(id, fields, b, s, hasSub) == [id |-> id, fields |-> fields, deco |-> [base |-> b, sub |-> s], hasSub |-> hasSub]
+Sh(id, fields, b, s, hasSub) == [id |-> id, fields |-> fields, deco |-> [base |-> b, sub |-> s], hasSub |-> hasSub, mixin |-> FALSE]
+\* the subclass lists a plain (undecorated, non-tracking) mixin BEFORE the tracked base: class K(Mixin, Base)
+ShMixin(id, fields, b, s) == [id |-> id, fields |-> fields, deco |-> [base |-> b, sub |-> s], hasSub |-> TRUE, mixin |-> TRUE]
 
 MCShapes == {
   \* a single decorated class: defaulted fields, one default_as_set
@@ -21,7 +23,13 @@ MCShapes == {
               Fd("n", "noinit", FALSE, FALSE, "sub") >>, TRUE, TRUE, TRUE),
   \* undecorated base, decorated subclass
   Sh("S5", << Fd("a", "normal", FALSE, TRUE, "base"), Fd("b", "normal", FALSE, FALSE, "sub"),
-              Fd("c", "normal", TRUE, FALSE, "sub") >>, FALSE, TRUE, TRUE) }
+              Fd("c", "normal", TRUE, FALSE, "sub") >>, FALSE, TRUE, TRUE),
+  \* decorated base, undecorated subclass with a mixin listed first (field m comes from the mixin)
+  ShMixin("S6", << Fd("a", "normal", FALSE, FALSE, "base"), Fd("b", "normal", TRUE, FALSE, "base"),
+                   Fd("m", "normal", FALSE, FALSE, "sub"), Fd("c", "normal", FALSE, FALSE, "sub") >>, TRUE, FALSE),
+  \* the same with a decorated subclass
+  ShMixin("S7", << Fd("a", "normal", FALSE, FALSE, "base"), Fd("w", "initvar", FALSE, FALSE, "base"),
+                   Fd("m", "normal", FALSE, FALSE, "sub"), Fd("c", "normal", TRUE, FALSE, "sub") >>, TRUE, TRUE) }
 
 Emit == "EMIT" \in DOMAIN IOEnv /\ IOEnv.EMIT = "1"
 \* one line per reachable history: the operations and what must be observed after the last one
